@@ -63,6 +63,7 @@ func main() {
 		"flags: a flag that is not given means its documented flag default (the file side writes that default out explicitly)",
 	}
 	schemaCoverage()
+	flagCoverage()
 
 	phase := func(name string, f func()) {
 		t0 := time.Now()
